@@ -75,6 +75,9 @@ func (ds *DirStructure) EnsureAbsPath(dirPath string) error {
 		return ds.Parent.EnsureAbsPath(dirPath)
 	}
 
+	// judge the path by where it ends up, not by how it is spelled
+	dirPath = filepath.Clean(dirPath)
+
 	// check if root
 	if dirPath == ds.Path {
 		return ds.ensure(nil)
